@@ -156,6 +156,15 @@ fn product_f64(d: &mut Draw) -> Outcome {
     for i in 0..3 {
         ensure!((gotv[i] - wantv[i]).abs() <= 16.0 * f64::EPSILON * vb + 1e-300, "q*v-f64", "component {} of q*v is {:e}, reference {:e} (q = {:?})", i, gotv[i], wantv[i], q);
     }
+    // q * invert(q) = invert(q) * q = one() for every q != 0, whatever its size
+    if qnorm2(&q) > 0.0 && qnorm2(&q).is_finite() {
+        let inv = cgmath::Rotation::invert(&cq);
+        for (name, prod) in [("q*invert(q)", cq * inv), ("invert(q)*q", inv * cq)] {
+            let r = rq(&prod);
+            ensure!((r[0] - 1.0).abs() <= 32.0 * f64::EPSILON && r[1].abs() <= 32.0 * f64::EPSILON && r[2].abs() <= 32.0 * f64::EPSILON && r[3].abs() <= 32.0 * f64::EPSILON,
+                "inverse-f64", "{} = {:?} for q = {:?} (|q|^2 = {:e})", name, r, q, qnorm2(&q));
+        }
+    }
     pass(["generic", "near-one", "wide-magnitudes", "unit"][class as usize], true)
 }
 
